@@ -226,6 +226,71 @@ def _long_quick(rng):
     return {"kind": "cache", "expire": e, "limit": rng.choice([0, 0, 4]), "phase": rng.randrange(300), "interval": iv, "calls": calls}
 
 
+FIXED_LONG = [(3 * H, 10 * MIN), (6 * H, 10 * MIN), (DAY, H), (30 * DAY, DAY), (365 * DAY, 7 * DAY)]
+
+
+def _long_fixed():
+    """always present (every tier, every seed, also in the violation search): one end-to-end case per long expiry,
+    draws at both ends and in the middle of the jitter range, a re-Set half way, Gets around the window"""
+    out = []
+    for e, iv in FIXED_LONG:
+        lo, hi = e * 95 // 100 // iv, e * 105 // 100 // iv
+        calls = [{"op": "set", "key": "k0", "val": 1, "draw": 2 ** 62}, {"op": "set", "key": "k1", "val": 2, "draw": 0},
+                 {"op": "set", "key": "k2", "val": 3, "draw": 2 ** 63 - 2048},
+                 {"op": "take", "key": "k3", "val": 4, "fail": False, "draw": 2 ** 61}]
+        half = max(1, lo // 2)
+        for t in range(hi + half + 3):
+            if t == half:
+                calls.append({"op": "set", "key": "k0", "val": 9, "draw": 3 * 2 ** 61})
+            if t in (lo - 1, hi + 1, half + lo - 1, half + hi + 1):
+                calls += [{"op": "get", "key": k} for k in ("k0", "k1", "k2", "k3")]
+            calls.append({"op": "tick"})
+        calls += [{"op": "get", "key": k} for k in ("k0", "k1", "k2", "k3")]
+        out.append({"kind": "cache", "expire": e, "limit": 0, "phase": 7, "interval": iv, "calls": calls})
+    return out
+
+
+def _jitter_fixed():
+    draws = [0, 2 ** 63 - 2048, 2 ** 62, 2 ** 61, 3 * 2 ** 61, 1, 2 ** 53 + 1, 7 * 2 ** 60]
+    return [{"kind": "jitter", "base": b, "draws": draws} for b in (3 * H, 6 * H, DAY, 30 * DAY, 365 * DAY, 10 * 365 * DAY)]
+
+
+def _index_churn(keep=1000, churn=10001, second=False):
+    """the wheel's timer index (SafeMap: two generations, 10000 deletions / 1000 live entries) under churn as the
+    cache produces it: `keep` old entries stay alive while `churn` timers are set and removed, newer keys arrive
+    (they land in the newer generation), one more removal crosses the compaction threshold; afterwards re-Set / Del
+    of the newer keys must still move / cancel their timers.  second: also drive the newer generation over the
+    deletion limit so that it is merged back."""
+    X = 20 * S
+    calls = [{"op": "fill", "from": 1000, "n": keep, "val": 1, "draw": 2 ** 62},
+             {"op": "churn", "from": 20000, "n": churn, "val": 2, "draw": 2 ** 62}]
+    newer = ["k%d" % i for i in range(12)]
+    for i, k in enumerate(newer):
+        calls.append({"op": "setx", "key": k, "val": 10 + i, "expire": X, "draw": 2 ** 62})       # due at tick 20
+    if second:
+        calls.append({"op": "churn", "from": 40000, "n": 9999, "val": 3, "draw": 2 ** 62})
+    calls += [{"op": "tick"}] * 3
+    for i in range(keep - 999):
+        calls.append({"op": "del", "key": "k%d" % (1000 + i)})          # the last one leaves 999 old entries: compaction
+    if second:
+        calls.append({"op": "del", "key": "k11"})                        # 10000th removal in the newer generation
+    calls += [{"op": "get", "key": "k0"}, {"op": "get", "key": "k1500"}]
+    calls += [{"op": "tick"}] * 7                                        # T = 10
+    calls += [{"op": "setx", "key": "k0", "val": 50, "expire": X, "draw": 2 ** 62},            # re-Set: due 30, not 20
+              {"op": "setx", "key": "k1", "val": 51, "expire": X, "draw": 0},                  # due 31
+              {"op": "del", "key": "k2"}, {"op": "setx", "key": "k2", "val": 52, "expire": 30 * S, "draw": 2 ** 62},   # due 40
+              {"op": "del", "key": "k3"},
+              {"op": "setx", "key": "k20", "val": 53, "expire": X, "draw": 2 ** 62}]           # new key after compaction: due 30
+    calls += [{"op": "tick"}] * 12                                       # T = 22: k4.. are gone, k0 k1 k2 k20 stay
+    calls += [{"op": "get", "key": k} for k in ("k0", "k1", "k2", "k4", "k20")]
+    calls += [{"op": "tick"}] * 10                                       # T = 32
+    calls += [{"op": "get", "key": k} for k in ("k0", "k1", "k2", "k20")]
+    calls += [{"op": "tick"}] * 10                                       # T = 42
+    calls += [{"op": "get", "key": "k2"}, {"op": "del", "key": "k1600"}, {"op": "set", "key": "k1600", "val": 7, "draw": 2 ** 62},
+              {"op": "get", "key": "k1600"}]
+    return {"kind": "cache", "expire": 100 * S, "limit": 0, "phase": 0, "calls": calls}
+
+
 def _long(rng, hours):
     e = hours * H
     calls = [{"op": "set", "key": "k0", "val": 1, "draw": _draw(rng)}, {"op": "set", "key": "k1", "val": 2, "draw": 0},
@@ -240,6 +305,9 @@ def generate(rng, tier, n):
         cases += [_long(rng, 1), _long(rng, 3), _long(rng, 6)]
     nj = max(10, n // 12)
     na = max(10, n // 12)
+    cases += _jitter_fixed() + _long_fixed() + [_index_churn()]
+    if tier == "thorough":
+        cases += [_index_churn(second=True), _index_churn(keep=1040, churn=10017), _index_churn(keep=1003, churn=12000, second=True)]
     cases += [_jitter(rng) for _ in range(nj)]
     cases += [_auth(rng) for _ in range(na)]
     while len(cases) < n:
@@ -277,8 +345,8 @@ def drive(cases, tier):
 
 
 def search(rng, problems):
-    """re-set at chosen wheel phases (the D7 classes seen through the cache)"""
-    out = []
+    """long expiries first (fixed), then re-set at chosen wheel phases (the D7 classes seen through the cache)"""
+    out = _jitter_fixed() + _long_fixed()
     for _ in range(150):
         e = rng.choice([20, 21, 19, 5, 60])
         phase = rng.randrange(300)
@@ -325,18 +393,20 @@ def encode(case, obs):
     ops, os_ = [], []
     for c, o in zip(case["calls"], obs.get("obs", [])):
         op = c["op"]
-        if op == "set":
-            ops.append("KSet %s %s %s" % (_k(c["key"]), cnat(c["val"]), cZ(o["jit"])))
+        if op in ("fill", "churn"):
+            ops.append("%s %s %s %s %s" % ("XFill" if op == "fill" else "XChurn", cnat(c["from"]), cnat(c["n"]), cnat(c["val"]), cZ(o["jit"])))
+        elif op == "set":
+            ops.append("XO (KSet %s %s %s)" % (_k(c["key"]), cnat(c["val"]), cZ(o["jit"])))
         elif op == "setx":
-            ops.append("KSetX %s %s %s %s" % (_k(c["key"]), cnat(c["val"]), cZ(c["expire"]), cZ(o["jit"])))
+            ops.append("XO (KSetX %s %s %s %s)" % (_k(c["key"]), cnat(c["val"]), cZ(c["expire"]), cZ(o["jit"])))
         elif op == "get":
-            ops.append("KGet %s" % _k(c["key"]))
+            ops.append("XO (KGet %s)" % _k(c["key"]))
         elif op == "del":
-            ops.append("KDel %s" % _k(c["key"]))
+            ops.append("XO (KDel %s)" % _k(c["key"]))
         elif op == "take":
-            ops.append("KTake %s %s %s" % (_k(c["key"]), copt(None if c.get("fail") else cnat(c["val"])), cZ(o["jit"])))
+            ops.append("XO (KTake %s %s %s)" % (_k(c["key"]), copt(None if c.get("fail") else cnat(c["val"])), cZ(o["jit"])))
         else:
-            ops.append("KTick")
+            ops.append("XO KTick")
         os_.append("mkObs %s %s %s %s %s" % (copt(cnat(o["val"]) if o["found"] else None), cbool(o["err"]), cbool(o["fetched"]),
                                              clist([_k(k) for k in o["keys"]]), clist([_k(k) for k in o.get("timers", [])])))
     if len(os_) != len(case["calls"]):
@@ -397,6 +467,8 @@ def bucket(case, obs):
         elif c["op"] in ("set", "setx", "take") and c["key"] in removed:
             out.append("hist:re-insert-after-del")
             break
+    if any(c["op"] == "churn" for c in case["calls"]):
+        out.append("hist:timer-index-churn(%d removals)" % sum(c["n"] for c in case["calls"] if c["op"] == "churn"))
     if case["expire"] >= H:
         out.append("hist:long-expiry-end-to-end")
     if case.get("interval", S) != S:
